@@ -461,7 +461,19 @@ func (h *hostile) smppBody(body string, coding int) {
 func (h *hostile) auxParsers() {
 	c := h.r.C
 	var s []byte
-	switch c.Pick(3, 2, 2, 2, 2) {
+	switch c.Pick(3, 2, 2, 2, 2, 3) {
+	case 5:
+		// packed GSM 7-bit: septet sequences over the branch-driving alphabet, packed by the reference packer
+		alpha := []byte{0x00, 0x01, 0x0d, 0x1b, 0x3f, 0x40, 0x7f, 0x65, 0x0a, 0x41}
+		n := c.Size(40, 0, 1, 7, 8, 9, 15, 16)
+		sept := make([]byte, n)
+		for i := range sept {
+			sept[i] = alpha[c.Intn(len(alpha))]
+		}
+		s = refPack(sept)
+		if c.Prob(1, 4) {
+			s = sept // the unpacked form
+		}
 	case 0:
 		s = c.Blob(c.Size(300, 0, 1, 5, 6, 7, 8), "any")
 	case 1: // near-miss concatenation headers
